@@ -49,7 +49,7 @@ def run(item):
         shutil.copy(here+'/known_findings.json', tmp)
         shutil.copy(here+'/properties.jsonl', tmp)
         for p in (claimed if '--own' not in args else [q for q in claimed if q == prop]):
-            r = subprocess.run([here+'/bin/verif','check',p,'--tier','quick','--no-evidence'],capture_output=True,text=True,env=env)
+            r = subprocess.run([here+'/bin/verif','check',p,'--tier','quick','--no-evidence'],capture_output=True,text=True,errors='replace',env=env)
             if r.returncode != 0:
                 fired.append(p)
                 for l in r.stdout.splitlines():
